@@ -224,6 +224,13 @@ def handle (line : String) : String :=
     | some (.error e, _) => "ctor-error " ++ showCErr e
     | some _ => "bad-op"
     | none => "bad-op"
+  | "planegf" :: rest =>
+    match (do let a ← rat; let b ← rat; let c ← rat; let d ← rat; pure (a, b, c, d) : P _).run rest with
+    | some ((a, b, c, d), _) =>
+      match Plane.ofGF a b c d with
+      | .ok pl => showGeo (.plane pl)
+      | .error e => "err " ++ showCErr e
+    | none => "bad-op"
   | "solve" :: rest => match solveOp.run rest with | some (s, _) => s | none => "bad-op"
   | "sat" :: rest => match satOp.run rest with | some (s, _) => s | none => "bad-op"
   | _ => "bad-op"
